@@ -65,6 +65,7 @@ class GpgStub:
         sig = w.keys.priv[i].sign(dig)
         self.last_content_hash = __import__("hashlib").sha256(bytes(content)).hexdigest()
         w.ledger.record_pgp(w.keys.pub[i], self.last_content_hash, hdr.hex(), sig.hex())
+        self.last_sig = (hdr.hex(), sig.hex())
         return {"keyid": keyid, "other_headers": hdr.hex(), "signature": sig.hex()}
 
     def export_pubkey(self, keyid, homedir=None):
@@ -318,6 +319,10 @@ class EnvelopeWorld(World):
                 return
             if not ref_is_pgp_entry(ent):
                 self.run.violate(("C10",), "gpg-entry", "GPG path did not file a well-formed OpenPGP entry under q")
+                return
+            if (ent["other_headers"], ent["signature"]) != getattr(self.gpgstub, "last_sig", None):
+                self.run.violate(("C10", "C09", "C02"), "gpg-entry-not-fresh",
+                                 "after signing through the GPG path the entry under q is not the signature GnuPG just made", "gpg-entry-not-fresh")
                 return
         else:
             ent, _ = self._sign_entry(i, E["signed"], impl, op.get("hdr"), op.get("see_also", False))
